@@ -531,7 +531,8 @@ func (c *genctx) injectOffence(plans []*reqPlan, sc *scenario) {
 	r := c.r
 	p := plans[r.intn(len(plans))]
 	off := []string{"uppercase", "pseudo-after-regular", "missing-path", "empty-path", "connection", "te", "cl-mismatch", "dup-method",
-		"status-pseudo", "unknown-pseudo", "cl-nonnumeric", "cl-overflow", "body-too-large", "header-list-too-large", "hpack-garbage", "too-many-streams"}[r.intn(16)]
+		"status-pseudo", "unknown-pseudo", "cl-nonnumeric", "cl-overflow", "body-too-large", "header-list-too-large", "hpack-garbage", "too-many-streams",
+		"vocab-mix", "vocab-mix", "vocab-mix"}[r.intn(19)]
 	p.offence = off
 	switch off {
 	case "uppercase":
@@ -604,6 +605,39 @@ func (c *genctx) injectOffence(plans []*reqPlan, sc *scenario) {
 		}
 	case "too-many-streams":
 		sc.cfg.maxStreams = 1
+	case "vocab-mix":
+		// one to three edits of a well-formed list, drawn from a vocabulary of fields that matter to RFC 7540 8.1.2:
+		// every request pseudo-header with a usual, another and an empty value (so a second :path after an empty one,
+		// two different :method, ... come up), response / unknown pseudo-headers, upper case, connection-specific
+		// fields, te, content-length in several shapes, an empty name
+		vocab := [][2]string{{":method", "GET"}, {":method", "POST"}, {":method", ""}, {":scheme", "https"}, {":scheme", "http"}, {":scheme", ""},
+			{":path", "/"}, {":path", "/other"}, {":path", ""}, {":authority", "example.org"}, {":authority", ""}, {":status", "200"}, {":foo", "x"},
+			{"x-a", "1"}, {"X-A", "1"}, {"te", "trailers"}, {"te", "gzip"}, {"te", ""}, {"connection", "close"}, {"upgrade", "h2c"},
+			{"content-length", "0"}, {"content-length", "3"}, {"content-length", "03"}, {"content-length", "x"}, {"content-length", ""}, {"host", "h"}, {"", "v"}}
+		for n := 1 + r.intn(3); n > 0; n-- {
+			v := vocab[r.intn(len(vocab))]
+			switch r.intn(4) {
+			case 0: // in front
+				p.fields = append([][2]string{v}, p.fields...)
+			case 1: // at the end
+				p.fields = append(p.fields, v)
+			case 2: // somewhere
+				i := r.intn(len(p.fields) + 1)
+				p.fields = append(p.fields[:i], append([][2]string{v}, p.fields[i:]...)...)
+			case 3: // in place of the first field of the same name (its old value follows: a duplicate whose first value is v's)
+				done := false
+				for i, kv := range p.fields {
+					if kv[0] == v[0] {
+						p.fields = append(p.fields[:i], append([][2]string{v}, p.fields[i:]...)...)
+						done = true
+						break
+					}
+				}
+				if !done {
+					p.fields = append(p.fields, v)
+				}
+			}
+		}
 	}
 }
 
